@@ -46,6 +46,16 @@ MatchStr(needleText, path, d) ==
 (* (PathIndex.tla checks this equivalence entry by entry on its universe). *)
 SuffixTexts(path, d) == {PathText(LastN(path, k), d) : k \in 1..Len(path)}
 
+(* The same set, computed in one backward pass (for the large ground-truth *)
+(* universes of PathGT; PathIndex.tla checks SuffixTextsFast = SuffixTexts *)
+(* on every path of its universe).                                         *)
+SuffixTextsFast(path, d) ==
+    LET n == Len(path)
+        g[k \in 1..n] == IF k = 1 THEN path[n]
+                         ELSE IF k = n /\ path[1] = d THEN d \o g[k - 1]      \* rooted: no second delimiter
+                         ELSE path[n - k + 1] \o d \o g[k - 1]
+    IN  {g[k] : k \in 1..n}
+
 (* str::split as Rust defines it: scan left to right, cut at every         *)
 (* non-overlapping occurrence of the (non-empty) delimiter; always yields  *)
 (* at least one (possibly empty) piece.                                    *)
